@@ -170,6 +170,11 @@ fn body(pl: &Plugin, case: &Case, fl: &mut Flags) -> Result<(), Fail> {
                 if !groups.is_empty() {
                     let i = pick(*i, groups.len());
                     let (w, r) = &mut groups[i];
+                    if *which % 4 == 2 {
+                        // the other mandatory traits of the group
+                        ensure!(w.tag_a() == r.tag_a(), "C05:result", "{when}: TagA::tag_a (a mandatory trait of the group) differs across modules");
+                        ensure!(w.tag_b(*x) == r.tag_b(*x), "C05:result", "{when}: TagB::tag_b (a mandatory trait of the group) differs across modules");
+                    }
                     if *which % 4 == 3 {
                         let e = as_ref!(w impl Extra).ok_or_else(|| Fail::new("C05:cast", format!("{when}: cast to an enabled trait refused across modules")))?;
                         ensure!(e.extra() == r.extra(), "C05:result", "{when}: Extra::extra differs");
